@@ -3,7 +3,7 @@ matrix: fault kind x syntactic position x enclosing construct, in multi-line pro
 after and contain an input probe after the fault.  Own predicate on the implementation alone: status 70, first
 diagnostic = the planted kind at the planted line, stdout ends before the fault (no 'after', no prompt), the run
 terminates; a fault-free twin exits 0 with empty stderr."""
-import core, lang, pools
+import core, lang, pools, progs
 from lang import *  # noqa
 from props.common import sub_rng, diff_runs, replay_generic, corpus_cases
 
@@ -68,6 +68,24 @@ def run(env, tier, seed, broken=None):
                 cid = 'm%d' % n; n += 1
                 cases.append({'id': cid, 'src': src, 'stdin': 'in1\nin2\nin3\n', 'timeout_ms': 2500})
                 want[cid] = (kind, PRE_LINES + k + 1)
+    # statements spread over several lines: the diagnostic names the line of the faulting operation itself, not the
+    # line where the statement starts, ends, or where the next token sits
+    ML = ['%s @\n  + 5;' % PRINT, '%s 1 +\n  @\n  + 5;' % PRINT, 'xx =\n  @\n;', 'fn3(\n  1,\n  @\n);', '%s [\n  1,\n  @\n  , 2];' % PRINT, '%s {k:\n  @\n  , j: 2};' % PRINT,
+          '%s (\n  @\n) { %s "then"; }' % (IF, PRINT), '%s (\n  @\n)\n{ %s "body"; }' % (WHILE, PRINT), '%s\n  @\n;' % RETURN, 'arr3[\n  @\n] = 1;', '%s -\n  @\n;' % PRINT,
+          '%s @\n  == 1;' % PRINT, '%s @\n  || 1;' % PRINT, '%s (@\n)\n;' % PRINT, '%s xx\n  =\n  @\n  ;' % PRINT]
+    for fi, (fexp, kind) in enumerate(FAULTS):
+        for pi, pos in enumerate(ML):
+            for enc in ('none', 'fn', 'block'):
+                if tier == 'quick' and (fi + pi) % 2 and enc != 'none':
+                    continue
+                if RETURN in pos and enc != 'fn':
+                    continue
+                stmt = pos.replace('@', fexp)
+                lines, k = wrap(stmt, enc)
+                src = PRE + '\n'.join(lines) + '\n' + POST
+                cid = 'm%d' % n; n += 1
+                cases.append({'id': cid, 'src': src, 'stdin': 'in1\nin2\nin3\n', 'timeout_ms': 2500})
+                want[cid] = (kind, PRE_LINES + k + 1 + pos[:pos.index('@')].count('\n'))
     # statement-level faults
     stmts = [('%s xx = 1;' % VAR, 'RRedeclare', 'none'), ('%s;' % BREAK, 'RStrayBreak', 'top'), ('%s;' % CONTINUE, 'RStrayContinue', 'top'),
              ('%s 1;' % RETURN, 'RStrayReturn', 'top'), ('%s q1 = 1, q1 = 2;' % VAR, 'RRedeclare', 'any'),
@@ -122,6 +140,39 @@ def run(env, tier, seed, broken=None):
             c = [x for x in cases if x['id'] == cid][0]
             # a twin may legitimately fail if "1" is not valid in that position (index 1 of arr3 is fine; callee 1 skipped)
             mism.append({'case': c, 'reason': 'fault-free twin: status %s stderr %r' % (r['status'], r['stderr'][:100])})
-    return {'evaluations': len(cases), 'distinct_nontrivial': reached, 'mismatches': mism,
-            'rule': '%d fault kinds x %d syntactic positions x %d enclosures (quick: all for none/while/function, a third of the rest) + statement-level faults + fault-free twins; non-trivial = programs in which the planted fault was reached and reported as planted' % (len(FAULTS), len(POSITIONS), len(ENCLOSURES)),
+    # the flag-level evaluator (Model/FlagEval.v, proved to refine the evaluator the other checks use): the WHOLE of
+    # stderr - every diagnostic the mechanism writes after the first one - status and stdout, on the matrix and on
+    # random faulty programs
+    fcases = list(cases)
+    for i in range(1500 if tier == 'quick' else 40000):
+        r = sub_rng(seed, 'C06f%d' % i)
+        fcases.append({'id': 'f%d' % i, 'src': progs.random_program(r, r.randint(4, 18), 3, fault_rate=0.7, use_input=True), 'stdin': 'a\n5\n', 'timeout_ms': 2500})
+    extra = [c for c in fcases if c['id'].startswith('f')]
+    gcs, mls = [], []
+    for c in fcases:
+        g, m = core.file_case(c['id'], c['src'], c.get('stdin', ''), timeout_ms=2500)
+        gcs.append(g); mls.append('f' + m)        # mode "ffile"
+    ri2 = dict(ri)
+    ri2.update(env.run_impl([g for g, c in zip(gcs, fcases) if c['id'].startswith('f')], timeout_ms=2500))
+    rf = env.run_model(mls, fuel=200000)
+    multi = 0
+    for c in fcases:
+        r = ri2[c['id']][0]; mf = rf.get(c['id'])
+        if mf is None or r['timeout'] or mf[0].startswith('noresult'):
+            continue
+        mstatus, mevents, mitems = (mf + ['', '', ''])[:3]
+        g = core.parse_stderr(r['stderr'].decode('utf-8', 'replace'))
+        ml = mitems.split(' ') if mitems else []
+        multi += len(g) > 1
+        why = None
+        if int(mstatus) != r['status']:
+            why = 'flag-level model: status %s, implementation %s' % (mstatus, r['status'])
+        elif core.model_stdout(mevents) != r['stdout']:
+            why = 'flag-level model: stdout %r, implementation %r' % (core.model_stdout(mevents)[-120:], r['stdout'][-120:])
+        elif g != ml:
+            why = 'flag-level model: all diagnostics %s, implementation %s' % (ml, g)
+        if why and len(mism) < 60:
+            mism.append({'case': c, 'reason': why})
+    return {'evaluations': len(cases) + len(fcases), 'flag_level_cases': len(fcases), 'runs_with_several_diagnostics': multi, 'distinct_nontrivial': reached, 'mismatches': mism,
+            'rule': '%d fault kinds x %d syntactic positions x %d enclosures (quick: all for none/while/function, a third of the rest) + statement-level faults + fault-free twins; non-trivial = programs in which the planted fault was reached and reported as planted; the same matrix and random faulty programs against the flag-level evaluator on the whole of stderr' % (len(FAULTS), len(POSITIONS), len(ENCLOSURES)),
             'samples': [cases[len(corpus_cases('C06')) + 3]['src'][-260:]], 'faults_reached': reached}
